@@ -546,7 +546,7 @@ func init() {
 		every := tier == "thorough"
 		return &Plan{
 			Prop: "C16", Level: "fault_enumeration", Engine: "fault",
-			Runs:   tierPick(tier, 400, 40000),
+			Runs:   tierPick(tier, 2400, 200000),
 			Budget: tierPick(tier, 55*time.Second, 14*time.Minute),
 			Rule: "each generated session (1-6 puts + Finalize on blockstore.ReadWrite, storage.StorageCar, storage.NewWritable over a WriterAt, storage.NewWritable over a plain stream, deferred stream writer; swarm-drawn options; optional immediate retry of a failed Put) is run fault-free to census its write calls, then re-run once per single-fault plan: for EVERY write call a transient failure (0, err), and a short write (j, err) for " +
 				tierPick(tier, "every j of calls <= 48 bytes and j in {1, mid, len-1} of longer ones", "every byte j") +
